@@ -1,4 +1,5 @@
 import Verif.Lemmas.StdioIn
+import Verif.Lemmas.StdioCodec
 
 /-! # C05 — stdio inbound framing is independent of how the byte stream is chunked
 
@@ -177,6 +178,113 @@ theorem c05_only_lf_separates (cfg : Cfg μ) (text : List Nat) (chunks : List (L
     · subst h; decide
   rw [(c05_reader_is_line_map cfg _ chunks hv hc).1, split_line LF text [] hn]
   simp [split]
+
+/-! ## The parser parameter instantiated with the library's real codec
+
+`realStdio` (`Model/Carrier.lean`) is the reader's real line parser: `Json.dec` (the RFC 8259
+decoder of C17) followed by `Rpc.parseMsg` (`parse_message`, C02), per member for an array.  The
+line a child writes for a message `m` built by the library's constructors is `Json.enc st (Rpc.emit m)`
+in ANY encoder style (compact or spaced separators, raw UTF-8 or `ensure_ascii`), optionally with
+blanks (spaces, tabs) around it, terminated by LF or CRLF.  (`c15_real_codec_stdio_good` in
+`Props/C15.lean` is the unpadded case; it cannot be cited here because C15 imports this file.) -/
+section realCodec
+open Verif.Model.Json Verif.Model.Rpc Verif.Model.Carrier Verif.Lemmas.StdioCodec
+
+/-- the line for `m`: blanks, the encoded wire object, blanks -/
+def wireItem (st : Style) (m : Msg) (pre post : List Nat) (crlf : Bool) : Item :=
+  ⟨pre ++ codes (enc st (emit m)) ++ post, crlf⟩
+
+/-- **A real message line is good and contributes exactly its message.**  For every message built
+by the library's constructors, every encoder style, any blanks around the text, LF or CRLF: the
+real parser accepts the line and the read stream gets exactly `view m` (same kind, id with its JSON
+type, method, params, result, error). -/
+theorem c05_real_codec_line (st : Style) (m : Msg) (pre post : List Nat) (crlf : Bool)
+    (hb : Built m) (hw : wfMsg m = true) (hpre : Blank pre) (hpost : Blank post) :
+    good realStdio (wireItem st m pre post crlf) = some (view m)
+    ∧ accepted realStdio (wireItem st m pre post crlf) = [view m]
+    ∧ ValidItem (wireItem st m pre post crlf) := by
+  obtain ⟨hc, hp⟩ := real_stdio_decodes st m hb hw
+  obtain ⟨h1, h2⟩ := strip_padded _ pre post hc hpre hpost
+  have hg : good realStdio (wireItem st m pre post crlf) = some (view m) := by
+    simp only [rpcWire] at hp h1 h2 hc
+    simp only [good, wireItem, h1, h2, hp, if_false]
+  refine ⟨hg, c05_accepted_message _ _ _ hg, ?_, ?_⟩
+  · intro c hcm
+    simp only [wireItem, List.mem_append] at hcm
+    rcases hcm with (hcm | hcm) | hcm
+    · exact (blank_valid pre hpre).1 c hcm
+    · exact validText_codes _ c hcm
+    · exact (blank_valid post hpost).1 c hcm
+  · intro hcm
+    simp only [wireItem, List.mem_append] at hcm
+    rcases hcm with (hcm | hcm) | hcm
+    · exact (blank_valid pre hpre).2 hcm
+    · exact lf_notin_codes _ hc.1 hcm
+    · exact (blank_valid post hpost).2 hcm
+
+/-- **The whole stream with the real codec.**  A child that writes, for each message of a list,
+such a line (style, blanks and terminator chosen freely per line), with junk lines (blank / not
+JSON / not a message for the real parser) anywhere between them: for every chunking of the byte
+stream the read stream is exactly the messages, in order. -/
+theorem c05_real_codec_stream (lines : List (Item ⊕ (Style × Msg × List Nat × List Nat × Bool)))
+    (chunks : List (List Nat))
+    (hjunk : ∀ it, Sum.inl it ∈ lines → ValidItem it ∧ good realStdio it = none
+      ∧ ∀ ms, realStdio.parse (strip it.text) ≠ .batch ms)
+    (hmsg : ∀ st m pre post crlf, Sum.inr (st, m, pre, post, crlf) ∈ lines →
+      Built m ∧ wfMsg m = true ∧ Blank pre ∧ Blank post)
+    (hc : chunks.flatten = encode (render (lines.map (fun l => match l with
+      | .inl it => it
+      | .inr (st, m, pre, post, crlf) => wireItem st m pre post crlf)))) :
+    delivered (runChunks realStdio init chunks).2
+      = lines.filterMap (fun l => match l with | .inl _ => none | .inr (_, m, _, _, _) => some (view m)) := by
+  rw [c05_delivers_good_lines realStdio _ chunks ?_ hc]
+  · clear hc
+    induction lines with
+    | nil => rfl
+    | cons l rest ih =>
+      have ih' := ih (fun it h => hjunk it (by simp [h])) (fun st m pre post crlf h => hmsg st m pre post crlf (by simp [h]))
+      cases l with
+      | inl it =>
+        obtain ⟨_, hg, hnb⟩ := hjunk it (by simp)
+        have : accepted realStdio it = [] := by
+          apply c05_accepted_junk
+          unfold good at hg
+          by_cases he : strip it.text = []
+          · exact Or.inl he
+          · right
+            simp only [he, if_false] at hg
+            cases hp : realStdio.parse (strip it.text) with
+            | junk => rfl
+            | single m => simp [hp] at hg
+            | batch ms => exact absurd hp (hnb ms)
+        simp only [List.map_cons, List.flatMap_cons, List.filterMap_cons, this, List.nil_append]
+        exact ih'
+      | inr q =>
+        obtain ⟨st, m, pre, post, crlf⟩ := q
+        obtain ⟨hb, hw, h1, h2⟩ := hmsg st m pre post crlf (by simp)
+        have := (c05_real_codec_line st m pre post crlf hb hw h1 h2).2.1
+        simp only [List.map_cons, List.flatMap_cons, List.filterMap_cons, this]
+        rw [ih']; rfl
+  · intro it hit
+    simp only [List.mem_map] at hit
+    obtain ⟨l, hl, rfl⟩ := hit
+    cases l with
+    | inl it => exact (hjunk it hl).1
+    | inr q =>
+      obtain ⟨st, m, pre, post, crlf⟩ := q
+      obtain ⟨hb, hw, h1, h2⟩ := hmsg st m pre post crlf hl
+      exact (c05_real_codec_line st m pre post crlf hb hw h1 h2).2.2
+
+/-! Non-vacuity: a request with a nested null and a non-ASCII method, stdlib style, blanks, CRLF. -/
+example : ∃ m, Built m ∧ wfMsg m = true ∧
+    good realStdio (wireItem stdStyle m [32, 9] [32] true) = some (view m) ∧ (view m).id = some (.int 7) := by
+  refine ⟨.request (.int 7) ['é'] (some [(['a'], .null)]), ?_, rfl, ?_, rfl⟩
+  · exact .createRequest (method := ['é']) (params := some [(['a'], .null)]) (id := some (.int 7)) (fresh := []) (tok := none) rfl
+  · exact (c05_real_codec_line stdStyle _ [32, 9] [32] true
+      (.createRequest (method := ['é']) (params := some [(['a'], .null)]) (id := some (.int 7)) (fresh := []) (tok := none) rfl)
+      rfl (by intro c h; simp at h; omega) (by intro c h; simp at h; omega)).1
+
+end realCodec
 
 /-! ## Non-vacuity: a concrete parser, a line with é (2 bytes), U+2028 (3 bytes), U+1F600
 (4 bytes) terminated by CRLF, cut inside every character and inside the CRLF -/
